@@ -51,22 +51,23 @@ type floor struct {
 
 // Ctx is the state of one check run.
 type Ctx struct {
-	Prop, Tier string
-	Level      string
-	Fset       *token.FileSet
-	All        []*packages.Package
-	byPath     map[string]*packages.Package
-	Obl        []*Obligation
-	floors     []floor
-	required   []string
-	Explain    []string // what the rules decide / do not decide
-	NotDecided []string
-	Assume     []string
-	Trusted    []string
-	Extra      map[string]interface{}
-	start      time.Time
-	overlay    map[string][]byte
-	goarch     string
+	Prop, Tier       string
+	Level            string
+	Fset             *token.FileSet
+	All              []*packages.Package
+	byPath           map[string]*packages.Package
+	Obl              []*Obligation
+	floors           []floor
+	required         []string
+	inCanonPredicate bool
+	Explain          []string // what the rules decide / do not decide
+	NotDecided       []string
+	Assume           []string
+	Trusted          []string
+	Extra            map[string]interface{}
+	start            time.Time
+	overlay          map[string][]byte
+	goarch           string
 
 	// lazily built
 	prog     *ssa.Program
